@@ -125,9 +125,11 @@ def work(run, names):
         if run.tier == "thorough":
             slist.append("DEFAULT")
         for si, st in enumerate(slist):
+            default_cost = False
             if st == "DEFAULT":
                 hh, st = h, {}
-                pcs = password_classes(rng, h, bname, "quick")[:2]
+                default_cost = True      # the (expensive) default cost path, once per hasher: few verifies
+                pcs = password_classes(rng, h, bname, "quick")[1:3]
             else:
                 try:
                     hh = H.apply(h, st)
@@ -196,7 +198,7 @@ def work(run, names):
                 # near misses
                 if not adm:
                     continue
-                lim = 14 if run.tier == "quick" else 40
+                lim = 3 if default_cost else 14 if run.tier == "quick" else 40
                 for kind, m in near_misses(rng, secret, lim):
                     eq = equivalent(bname, secret, m, ctx, ident if ident else getattr(hh, "default_ident", None))
                     if bname in ("bcrypt",) and (ident in ("2", "$2$")):
